@@ -87,9 +87,10 @@ Section Steps.
     step (mks prog pc fl r rest o k rqs) = Running (mks prog (if z then l else S pc) fl r rest o k rqs).
   Proof. intros pc r o k l t v z H Hl Hz. one H. rewrite Hl, Hz. destruct z; reflexivity. Qed.
 
-  Lemma step_empty_arr : forall pc r o k, nth_error prog pc = Some OP_empty_arr -> has_opts fl (b_empty_arr P) = false ->
-    step (mks prog pc fl r rest o k rqs) = Running (mks prog (S pc) fl r rest (s_null :: o) k rqs).
-  Proof. intros pc r o k H Hb. one H. rewrite Hb. reflexivity. Qed.
+  Lemma step_empty_arr : forall pc r o k, nth_error prog pc = Some OP_empty_arr ->
+    step (mks prog pc fl r rest o k rqs) =
+    Running (mks prog (S pc) fl r rest ((if has_opts fl (b_empty_arr P) then [91%N; 93%N] else s_null) :: o) k rqs).
+  Proof. intros pc r o k H. one H. reflexivity. Qed.
 
   Lemma step_deref : forall pc r o k lt el x, nth_error prog pc = Some OP_deref ->
     leaf e (rp r) = Some (lt, VPtr (Some x)) -> unfold e lt = TPtr el ->
